@@ -14,6 +14,8 @@ def run(rep, tier, seed):
     rnd = rng_for(seed, 'C07')
     b = Batch(rep)
     for stack, bits, klass in pc.malformed_stream(rnd, tier):
+        if stack == 'CoAP-semantic':
+            continue      # the semantic option view replaces delta/length fields by names: it does not tile by design (C19 covers it)
         out = pc.observe(stack, bits)
         fails = []
         if out[0] == 'OK':
